@@ -19,7 +19,8 @@ RULE = ("(i) exhaustive: for each of the 20 residue types X, the tripeptide GLY-
         "backbone, every subset of X's heavy atoms deleted (28,976 cases), and for the ionizable types also with X as "
         "N-terminal and as C-terminal (OXT-carrying) residue (every subset of X's atoms incl. OXT); (ii) random: "
         "generated structures (ligands, ions, several chains) with drawn deletions of single atoms, side chains, "
-        "backbone atoms, terminal atoms, whole residues and ligand atoms at rates 2-60 %; (iii) rejection: inputs "
+        "backbone atoms, terminal atoms, whole residues and ligand atoms at rates 2-60 %; (iii) an atheris (libFuzzer) target decoding bytes "
+        "into template choice + deletion mask + jitter with coverage feedback over propka.*; (iv) rejection: inputs "
         "without any usable atom record and unknown file types. Non-trivial: the deletion removed at least one atom "
         "that group set-up or an interaction routine reads (any atom of an ionizable / H-bonding residue, a backbone "
         "N/C/O, a terminal oxygen, a ligand atom); enumerated cases are distinct by construction, random ones by "
@@ -172,6 +173,19 @@ def run_shard(ctx):
         ctx.account(case, v, info)
 
     ctx.hypothesis_stage("random-deletions", cases(), body, 3000 if quick else 40000)
+
+    # ---- (iii) coverage-guided, structure-aware deletion fuzzing (atheris), oracle inside the target ----------------
+    from vlib import fuzzrun
+    from vlib.runner import hseed, Violation
+    for payload in fuzzrun.run_target(ctx, "atheris-deletions", "fuzz_c12.py", 120 if quick else 6000, 256,
+                                      hseed(ctx.seed, "C12", "atheris", ctx.shard)):
+        case = {"pdb": payload["pdb"]}
+        try:
+            ctx.account(case, check_text(payload["pdb"])[0] or [{"clause": "fuzz-target",
+                                                                 "detail": repr(payload["violation"])}], {})
+        except Violation as v:
+            ctx.record_violation("atheris-deletions", v)
+            break
 
     # ---- (iv) rejection -------------------------------------------------------------------------------------------------
     if ctx.shard == 0:
